@@ -37,7 +37,7 @@ fn certificate(tag: &str, g: Cmplx, m: Cmplx, hyps: &[(Cmplx, Cmplx)]) -> bool {
     // the field step, on abstract values
     let (gr, gi, mr, mi) = (Sym::var("G.re"), Sym::var("G.im"), Sym::var("M.re"), Sym::var("M.im"));
     let step = B::implies(B::and(vec![eq(gr * mr - gi * mi, z()), eq(gr * mi + gi * mr, z()), B::or(vec![ne(mr, z()), ne(mi, z())])]), B::and(vec![eq(gr, z()), eq(gi, z())]));
-    all &= ok(prove("complex field step: G*M = 0 and M != 0 imply G = 0", step));
+    all &= ok(prove_closed("complex field step: G*M = 0 and M != 0 imply G = 0", step));
     all
 }
 
